@@ -4,6 +4,7 @@ import (
 	"fmt"
 	"go/token"
 	"go/types"
+	"strings"
 
 	"golang.org/x/tools/go/ssa"
 )
@@ -21,9 +22,11 @@ func runC13(c *Ctx) {
 	c13LabelPop(c)
 	c13Recover(c)
 	c13WritePath(c, "C13")
+	c13FitLast(c)
 	c13BadVers(c)
 	c13Barrier(c)
 	c20Guard(c, "C13.question")
+	c13QuestionGuarded(c, "C13.question-guarded")
 	c13QuestionAccess(c)
 	// an unsynchronised write to a package-level map from the query path is not a recoverable panic: the runtime aborts the process
 	c.importRules(runC14, "C14", map[string]string{"globals": "globals"})
@@ -410,4 +413,199 @@ func c13BadVers(c *Ctx) {
 		}
 	}
 	c.Check(rule, fnName(serve)+"|badvers-reply-is-versions-message", okw, ver.Pos(), "the BADVERS reply built by edns.Version is what gets written on the failure edge")
+}
+
+// c13FitLast implements C13.fit-last: the reply is fitted to the client's buffer (request.Scrub / Msg.Truncate) as the
+// LAST change of its size before it is written. Anything appended to the message or to its OPT record after the fit
+// (seed c13f: the client-subnet option echoed from writeAndLog, behind Scrub) makes the reply larger than what was
+// measured: it exceeds the advertised size with TC clear.
+func c13FitLast(c *Ctx) {
+	rule := "C13.fit-last"
+	c.Rule(rule, "A2 ordering in every function of dnsserver/fbserver that calls request.Request.Scrub or (*dns.Msg).Truncate and then writes: no store of an append result into a field of a miekg/dns type lies on a path from the fit to the WriteMsg call")
+	n := 0
+	for _, fn := range c.OurFuncs("dnsserver", "fbserver", "whoami") {
+		var fits, writes []ssa.CallInstruction
+		for _, ci := range callInstrs(fn) {
+			f := calleeOf(ci.Common())
+			if f == nil {
+				if ci.Common().IsInvoke() && ci.Common().Method.Name() == "WriteMsg" {
+					writes = append(writes, ci)
+				}
+				continue
+			}
+			switch {
+			case f.Name() == "Scrub" && f.Pkg() != nil && strings.HasSuffix(f.Pkg().Path(), "coredns/request"),
+				f.Name() == "Truncate" && f.Pkg() != nil && f.Pkg().Path() == dnsPkg:
+				fits = append(fits, ci)
+			case f.Name() == "WriteMsg":
+				writes = append(writes, ci)
+			}
+		}
+		if len(fits) == 0 || len(writes) == 0 {
+			continue
+		}
+		c.Examined(fn)
+		for i, fit := range fits {
+			n++
+			var grows []string
+			for _, b := range fn.Blocks {
+				for _, in := range b.Instrs {
+					st, ok := in.(*ssa.Store)
+					if !ok {
+						continue
+					}
+					fa, ok := st.Addr.(*ssa.FieldAddr)
+					if !ok {
+						continue
+					}
+					if isBuiltinCall(st.Val, "append") == nil {
+						continue
+					}
+					t := fa.X.Type()
+					if p, ok := t.Underlying().(*types.Pointer); ok {
+						t = p.Elem()
+					}
+					nt, ok := t.(*types.Named)
+					if !ok || nt.Obj().Pkg() == nil || nt.Obj().Pkg().Path() != dnsPkg {
+						continue
+					}
+					after := instrReaches(fit, st)
+					before := false
+					for _, w := range writes {
+						if instrReaches(st, w) {
+							before = true
+						}
+					}
+					if after && before {
+						grows = append(grows, fmt.Sprintf("%s.%s grown at %s", nt.Obj().Name(), fieldName(fa.X.Type(), fa.Field), c.relPos(st.Pos())))
+					}
+				}
+			}
+			c.Check(rule, fmt.Sprintf("%s|fit#%d|nothing-appended-before-the-write", fnName(fn), i), len(grows) == 0, fit.Pos(), fmt.Sprintf("appends between the fit and the write: %v", grows))
+		}
+	}
+	c.Floor(rule, 1)
+}
+
+// c13QuestionGuarded implements C13/C20.question-guarded: outside dnsserver/db (where direct indexing is forbidden
+// altogether) a message's question section is indexed only where it is known to be non-empty — by a test of
+// len(Question) dominating the access in the same function, or dominating every call of that function. A message
+// with QDCOUNT=0 is wire-valid; Question[0] on it is an index-out-of-range panic that miekg/dns does not recover
+// (seed c20e: a logging helper called from the very branch that handles the question-less message).
+func c13QuestionGuarded(c *Ctx, rule string) {
+	c.Rule(rule, "A2 + callers: in fbserver, whoami, logger and dnsserver every IndexAddr/Index on a load of dns.Msg.Question is dominated by a branch outcome implying len(Question) >= 1 (len == 1, len != 0, len > 0, …) in the same function, or, for a function that receives the message, at every static call site of it (depth 2)")
+	fQ := fieldByName(c, dnsPkg, "Msg", "Question")
+	nonEmptyFact := func(b *ssa.BasicBlock) bool {
+		return hasFact(b, func(v ssa.Value, truth bool) bool {
+			bo, ok := v.(*ssa.BinOp)
+			if !ok {
+				return false
+			}
+			x, y := bo.X, bo.Y
+			ln := isBuiltinCall(x, "len")
+			if ln == nil || !isFieldLoad(ln.Call.Args[0], fQ) {
+				return false
+			}
+			k, ok := constInt(y)
+			if !ok {
+				return false
+			}
+			switch bo.Op {
+			case token.EQL:
+				return (truth && k >= 1) || (!truth && false)
+			case token.NEQ:
+				return (truth && k == 0) || (!truth && k >= 1)
+			case token.GTR:
+				return truth && k >= 0
+			case token.GEQ:
+				return truth && k >= 1
+			case token.LSS:
+				return !truth && k >= 1
+			case token.LEQ:
+				return !truth && k >= 0
+			}
+			return false
+		})
+	}
+	var callersGuard func(fn *ssa.Function, depth int) bool
+	callersGuard = func(fn *ssa.Function, depth int) bool {
+		if depth > 2 {
+			return false
+		}
+		tf, _ := fn.Object().(*types.Func)
+		if tf == nil {
+			return false
+		}
+		n := 0
+		for _, caller := range c.OurFuncs() {
+			for _, ci := range callsTo(caller, func(f *types.Func) bool { return f == tf }) {
+				n++
+				if nonEmptyFact(ci.Block()) {
+					continue
+				}
+				if !callersGuard(caller, depth+1) {
+					return false
+				}
+			}
+		}
+		// a link of the plugin chain (ServeDNS of a plugin.Handler) is entered through the interface: its callers are
+		// the ServeDNS invocations of the packages that assemble the chain
+		if tf.Name() == "ServeDNS" && tf.Type().(*types.Signature).Recv() != nil {
+			for _, caller := range c.OurFuncs("fbserver", "whoami") {
+				if caller == fn {
+					continue
+				}
+				for _, ci := range callInstrs(caller) {
+					cc := ci.Common()
+					if !cc.IsInvoke() || cc.Method.Name() != "ServeDNS" || len(cc.Args) != len(fn.Params)-1 {
+						continue
+					}
+					n++
+					if nonEmptyFact(ci.Block()) {
+						continue
+					}
+					if !callersGuard(caller, depth+1) {
+						return false
+					}
+				}
+			}
+		}
+		return n > 0
+	}
+	n := 0
+	for _, fn := range c.OurFuncs("fbserver", "whoami", "logger", "dnsserver") {
+		for _, b := range fn.Blocks {
+			for _, in := range b.Instrs {
+				var base ssa.Value
+				switch x := in.(type) {
+				case *ssa.IndexAddr:
+					base = x.X
+				case *ssa.Index:
+					base = x.X
+				}
+				if base == nil || !isFieldLoad(base, fQ) {
+					continue
+				}
+				n++
+				c.Examined(fn)
+				ok := nonEmptyFact(b) || callersGuard(fn, 0)
+				// a function literal runs inside the function that created it: what holds where it was created (or
+				// for that function's callers) holds for it
+				for p, cl := fn.Parent(), fn; !ok && p != nil; p, cl = p.Parent(), p {
+					for _, pb := range p.Blocks {
+						for _, pin := range pb.Instrs {
+							if mc, isMC := pin.(*ssa.MakeClosure); isMC && mc.Fn == ssa.Value(cl) && nonEmptyFact(pb) {
+								ok = true
+							}
+						}
+					}
+					if !ok && callersGuard(p, 0) {
+						ok = true
+					}
+				}
+				c.Check(rule, fmt.Sprintf("%s|Question-index#%d|non-empty-known", fnName(fn), n), ok, in.Pos(), "indexing the question section of a message whose question count is not known to be at least one")
+			}
+		}
+	}
+	c.Floor(rule, 1)
 }
